@@ -1,5 +1,5 @@
 /-! Model of the revent event system (C05): `pox/lib/revent/revent.py`, class `EventMixin`, as it stands after
-the proposed repairs D01 (`raiseEvent` iterates a copy of the handler list) and D28 (`removeListener(eid, eventType)`
+the repairs D01 (`raiseEvent` iterates a copy of the handler list) and D28 (`removeListener(eid, eventType)`
 reads the list before using it).
 
 Any number of event sources (`M.srcs`), sharing the global event-id counter; handlers subscribed on one source may
@@ -22,6 +22,9 @@ does not make the base declared.  The harness realises the numbers as a class hi
 | `exec (.raise ..)`             | `raiseEvent` 260-292 (instance / class form, early-out, declared check, snapshot) and `raiseEventNoErrors` 241-250 |
 | `step` (frame part), `hret`    | the dispatch loop 293-317 and its return-value protocol                                                 |
 | `abort`                        | an exception leaving the loop; `raiseEventNoErrors`' `except ReventError: raise / except: hook; return None` |
+| `Frame.halt`, `Script.halt`, `stopsAt` | `event.halt` assigned by a handler; tested at 315 only when the handler returned something (299 `continue`) |
+| `Src.inited`, `Src.touch`, `.count` | `_eventMixin_init` 221-229 called by `addListener` 439, `removeListener` 340, `raiseEvent` 260; `clearHandlers` creates the dict; the counter 329 needs it |
+| `M.srcs`, `setSrc`, `doActionM` | several `EventMixin` objects; the module-global `_nextEventID`; an owner's weakref callbacks reach every source |
 
 Re-entrancy (handlers that subscribe, unsubscribe and raise) is a small-step machine `M` with an explicit stack of
 delivery frames, run structurally on fuel (`run`).  Handler behaviour is a parameter `β : hid → log so far → Script`:
